@@ -16,6 +16,9 @@ branch of that class consumes and where each key lands.  The module has grown be
 R-C13-9 (T3, sa/concrete): the patterns / curves / sources sections of from_dict interpreted on one fixture dictionary per value of each object's small
 emitted domain (incl. falsy values) against a recording mock model; R-C13-3h (T3+T1): io.to_dict interpreted on a mock model with three controls, the
 keys of each emitted entry compared with the keys the from_dict branch of that control type reads.
+R-C13-10 (T3, sa/concrete.py with the real numpy / re / enum modules): a fixture model with every element kind, option group, control and rule shape is
+built through the public API by the repository's real constructors and methods, serialised, JSON-normalised, re-created and serialised again -- the two
+dictionaries must be equal section by section, and appending must equal creating (sa/props/c13_fixture.py holds the recipe).
 R-C13-1, -3a and -3e fall back silently to a purely syntactic reading when the evaluator meets an unsupported construct, so which
 technique decided depends on the repository's shape.  R-C13-3 is only the family name of 3a..3g.
 """
@@ -3048,21 +3051,184 @@ def rule_sections(repo, chk, fd):
     chk.sample({"rule": "R-C13-3h", "control_keys_read_per_type": {k: sorted(v) for k, v in branch_reads.items()}, "common": sorted(common), "emitted": [sorted(e) for e in ents]})
 
 
+# --------------------------------------------------------------------------- R-C13-10 the whole round trip, interpreted, on one rich fixture model
+def model_world(repo):
+    """an interpreted world (sa/concrete.py) in which WaterNetworkModel() is built by its real constructor"""
+    import enum as _enum
+    from ..concrete import World, stdlib_overrides, Namespace, ClassRef
+    from .c14 import ABC_MIXINS, _link_status_enum
+    ov, _st = stdlib_overrides()
+    ov["six"] = Namespace("six", with_metaclass=lambda meta, *bases: (bases[0] if bases else object), string_types=(str,), integer_types=(int,))
+    ov["wntr.network.base.LinkStatus"] = _link_status_enum(repo)
+    ov["wntr.__version__"] = "0.0"
+    ov["enum"] = _enum
+    # numpy is the real library here (present in the tooling venv): the model code indexes 2-d arrays of curve points and interpolates on them; the values
+    # it produces are plain numbers / arrays the interpreter passes through
+    import numpy as _np
+    ov["numpy"] = _np
+    import re as _re, datetime as _dt, copy as _cp, json as _json, string as _string
+    ov.update({"re": _re, "datetime": _dt, "copy": _cp, "json": _json, "string": _string})      # pure stdlib modules working on plain values
+    def signature(f):
+        """inspect.signature for a function of the interpreted world: .parameters is the ordered mapping of parameter names (self dropped for a bound method)"""
+        import collections
+        from ..concrete import Closure, Unsupported
+        if not isinstance(f, Closure):
+            raise Unsupported("inspect.signature(%r)" % (f,))
+        a = f.node.args
+        names = [x.arg for x in a.posonlyargs + a.args] + ([a.vararg.arg] if a.vararg else []) + [x.arg for x in a.kwonlyargs] + ([a.kwarg.arg] if a.kwarg else [])
+        if f.bound is not None and names:
+            names = names[1:]
+        return Namespace("signature", parameters=collections.OrderedDict((n_, n_) for n_ in names))
+    ov["inspect"] = Namespace("inspect", signature=signature)
+    world = World(repo, ov, fuel=200000000)
+    for cd in ast.parse(ABC_MIXINS).body:
+        world.overrides["collections.abc." + cd.name] = ClassRef(world.interp, cd, world.ctx(BASE))
+    return world
+
+
+def build_fixture_model(repo, world):
+    from .c13_fixture import STEPS, CONTROLS
+    I = world.interp
+    LS = world.overrides["wntr.network.base.LinkStatus"]
+    call = lambda o, m, *a, **k: I.call(I.getattr_(o, m), list(a), k)
+    wn = world.function(MODEL, "WaterNetworkModel")()
+    Cc = {n: world.function(CTRL, n) for n in ("SimTimeCondition", "TimeOfDayCondition", "ValueCondition", "AndCondition", "OrCondition", "ControlAction", "Control", "Rule")}
+
+    def ref(x):
+        if isinstance(x, str) and x.startswith("node:"):
+            return call(wn, "get_node", x[5:])
+        if isinstance(x, str) and x.startswith("link:"):
+            return call(wn, "get_link", x[5:])
+        if isinstance(x, str) and x.startswith("curve:"):
+            return call(wn, "get_curve", x[6:])
+        if isinstance(x, str) and x.startswith("status:"):
+            return LS[x[7:]]
+        if x == "wn":
+            return wn
+        return x
+    for st in STEPS:
+        if st[0] == "set":
+            I.setattr_(ref(st[1]), st[2], ref(st[3]))
+        elif st[0] == "setopt":
+            I.setattr_(I.getattr_(I.getattr_(wn, "options"), st[1]), st[2], st[3])
+        else:
+            call(ref(st[0]), st[1], *[ref(a) for a in st[2]], **st[3])
+
+    def cond(c):
+        if c[0] == "simtime":
+            return Cc["SimTimeCondition"](wn, c[1], c[2])
+        if c[0] == "clock":
+            return Cc["TimeOfDayCondition"](wn, c[1], c[2])
+        if c[0] == "value":
+            return Cc["ValueCondition"](ref(c[1]), c[2], c[3], c[4])
+        return Cc["AndCondition" if c[0] == "and" else "OrCondition"](cond(c[1]), cond(c[2]))
+    for name, kind, spec in CONTROLS:
+        if kind == "simple":
+            act = Cc["ControlAction"](ref(spec["target"]), spec["attr"], ref(spec["value"]))
+            call(wn, "add_control", name, Cc["Control"](cond(spec["cond"]), act))
+        else:
+            th = [Cc["ControlAction"](ref(t), a, ref(v)) for t, a, v in spec["then"]]
+            el = [Cc["ControlAction"](ref(t), a, ref(v)) for t, a, v in spec["else_"]]
+            call(wn, "add_control", name, Cc["Rule"](cond(spec["cond"]), th, el, priority=spec["priority"], name=name))
+    return wn
+
+
+def dict_diff(a, b, path=""):
+    out = []
+    if isinstance(a, dict) and isinstance(b, dict):
+        for k in sorted(set(a) | set(b), key=str):
+            if k not in a:
+                out.append("%s/%s only in the copy: %r" % (path, k, b[k]))
+            elif k not in b:
+                out.append("%s/%s only in the original: %r" % (path, k, a[k]))
+            else:
+                out += dict_diff(a[k], b[k], path + "/" + str(k))
+    elif isinstance(a, list) and isinstance(b, list):
+        if len(a) != len(b):
+            out.append("%s: %d entries vs %d" % (path, len(a), len(b)))
+        for i, (x, y) in enumerate(zip(a, b)):
+            out += dict_diff(x, y, "%s[%s]" % (path, x.get("name", i) if isinstance(x, dict) and x.get("name") else i))
+    elif a != b or type(a) is not type(b) and not (isinstance(a, (int, float)) and isinstance(b, (int, float)) and not isinstance(a, bool) and not isinstance(b, bool)):
+        out.append("%s: %r vs %r" % (path, a, b))
+    return out
+
+
+def rule_round_trip(repo, chk):
+    """R-C13-10 (T3, bounded to one fixture model): a model with every element kind (4 junctions incl. several demands / no demand / zero demand, cylindrical and
+    volume-curve tanks, reservoirs with and without head pattern, pipes with vertices / check valve / closed, head and power pumps with efficiency curve, energy
+    price and pattern, all six valve types, curves of every type, sources, leaks on a junction and a tank, every option group changed, seven simple controls and
+    four rules with AND / OR / ELSE / priorities) is BUILT through the public API, turned into its dictionary, JSON-normalised, re-created with from_dict and turned
+    into a dictionary again -- all by the repository's own code run by the in-house interpreter.  The two dictionaries must be equal; appending the dictionary to an
+    empty model must give the same dictionary as creating the model from it."""
+    import json
+    import copy as _copy
+    from ..concrete import ProgramError
+    fd = repo.func(NIO, "from_dict")
+    world = model_world(repo)
+    to_dict, from_dict = world.function(NIO, "to_dict"), world.function(NIO, "from_dict")
+
+    def norm_json(d):
+        def default(o):
+            if hasattr(o, "tolist"):
+                return o.tolist()
+            v = getattr(o, "v", None)
+            if isinstance(v, list):
+                return v                      # the interpreter's 1-d array stand-in
+            raise TypeError("not JSON serialisable: %r" % (o,))
+        return json.loads(json.dumps(d, default=default))
+    try:
+        wn = build_fixture_model(repo, world)
+        d1 = norm_json(to_dict(wn))
+        wn2 = from_dict(_copy.deepcopy(d1))
+        d2 = norm_json(to_dict(wn2))
+        wn3 = world.function(MODEL, "WaterNetworkModel")()
+        from_dict(_copy.deepcopy(d1), append=wn3)
+        d3 = norm_json(to_dict(wn3))
+    except ProgramError as e:
+        chk.bad("R-C13-10", "the fixture model survives to_dict -> JSON -> from_dict -> to_dict", loc(fd), "the repository's own code (interpreted) raised on the fixture model",
+                found="%s (line %s)" % (e, e.lineno))
+        return
+    except TypeError as e:
+        chk.bad("R-C13-10", "the dictionary of the fixture model is JSON serialisable", loc(fd), found=str(e))
+        return
+    sizes = {k: len(v) for k, v in d1.items() if isinstance(v, list)}
+    if sizes.get("nodes", 0) < 8 or sizes.get("links", 0) < 13 or sizes.get("controls", 0) < 13 or sizes.get("curves", 0) < 6 or sizes.get("sources", 0) < 2:
+        raise ExtractError("R-C13-10: the fixture model did not come out complete (%s)" % sizes)
+    for sec in ("options", "curves", "patterns", "nodes", "links", "sources", "controls", "name", "references"):
+        df = dict_diff(d1.get(sec), d2.get(sec), sec)
+        chk.expect(not df, "R-C13-10", "section %r of the dictionary of the re-created fixture model equals the original" % sec, loc(fd),
+                   "to_dict(from_dict(json(to_dict(wn)))) compared with json(to_dict(wn)) for the fixture model built through the public API (interpreted)", expected="no difference", found=df[:5])
+    df = dict_diff(d2, d3, "")
+    chk.expect(not df, "R-C13-10", "appending the dictionary to an empty model equals creating the model from it", loc(fd), found=df[:5])
+    chk.floor("R-C13-10", 10)
+    chk.sample({"rule": "R-C13-10", "fixture_sizes": sizes})
+
+
 def run(repo, chk):
     ct, fd, emits = rule_keys(repo, chk)
-    rule_sections(repo, chk, fd)
-    rule_values(repo, chk, ct, fd, emits)
-    rule_explicit(repo, chk, fd)
-    rule_json_shapes(repo, chk, ct, fd)
-    rule_enum_vocab(repo, chk, ct)
-    rule_control_text(repo, chk, fd)
-    rule_action_round_trip(repo, chk)
-    rule_condition_grouping(repo, chk)
-    rule_sibling_element_types(repo, chk)
-    rule_options(repo, chk)
 
+    def part(fn, *a):
+        # each family of rules decides on its own: one that cannot analyse the tree is an analysis error of its own, the others still run
+        try:
+            fn(*a)
+        except AnchorError as e:
+            chk.error("%s: %s: %s" % (fn.__name__, type(e).__name__, e))
+    part(rule_round_trip, repo, chk)
+    part(rule_sections, repo, chk, fd)
+    part(rule_values, repo, chk, ct, fd, emits)
+    part(rule_explicit, repo, chk, fd)
+    part(rule_json_shapes, repo, chk, ct, fd)
+    part(rule_enum_vocab, repo, chk, ct)
+    part(rule_control_text, repo, chk, fd)
+    part(rule_action_round_trip, repo, chk)
+    part(rule_condition_grouping, repo, chk)
+    part(rule_sibling_element_types, repo, chk)
+    part(rule_options, repo, chk)
 
 WITNESSES = [
+    dict(name="round-trip-loses-a-zero-mixing-fraction", file=NIO, old='                if node.setdefault("mixing_fraction") is not None:\n', new='                if node.setdefault("mixing_fraction"):\n', rule="R-C13-10"),
+    dict(name="round-trip-loses-the-second-demand", file=NIO, old="                    for i in range(1, len(dl)):\n", new="                    for i in range(2, len(dl)):\n", rule="R-C13-10"),
+    dict(name="round-trip-rule-priority-not-restored", file=NIO, old='                ctrllst.append(str(control["priority"]))\n', new='                ctrllst.append(str(3))\n', rule="R-C13-10"),
     dict(name="pattern-wrap-restored-only-when-true", file=NIO, old='            wn.get_pattern(pattern["name"]).wrap = pattern.setdefault("wrap", True)\n',
          new='            if pattern.get("wrap"):\n                wn.get_pattern(pattern["name"]).wrap = pattern["wrap"]\n', rule="R-C13-9"),
     dict(name="quiet-pattern-wrap-through-local", file=NIO, silent=True, old='            wn.get_pattern(pattern["name"]).wrap = pattern.setdefault("wrap", True)\n',
@@ -3141,7 +3307,7 @@ WITNESSES = [
     dict(name="p-factory-copies-the-dict-and-only-reports-unknown-keys", file=OPTS, old="            return cls(**val)\n",
          new="            known = inspect.signature(cls.__init__).parameters\n            unknown = [k for k in val if k not in known]\n"
              "            if unknown:\n                logger.debug('%s: option(s) without a named parameter: %s', cls.__name__, unknown)\n"
-             "            kwargs = {k: v for k, v in val.items()}\n            return cls(**kwargs)\n", silent=True),
+             "            kwargs = {k: v for k, v in val.items()}\n            return cls(**kwargs)\n", also=[("import logging\n", "import logging\nimport inspect\n")], silent=True),
     dict(name="p-factory-early-returns", file=OPTS,
          old="        if isinstance(val, cls):\n            return val\n        elif isinstance(val, dict):\n            return cls(**val)\n"
              "        elif isinstance(val, (list, tuple)):\n            return cls(*val)\n        elif val is None:\n            return cls()\n",
